@@ -173,9 +173,23 @@ def job_dbo(job):
             job.validate("db_o_dgor_Standing", evalf(hand, env), float(ro.db_o_dgor_Standing(*ra)), inputs=env)
 
 
-def _uf(name, pos=True):
-    def f(*args):
+def _uf(name, pos=True, like=None):
+    """Recording stand-in for a library function: an uninterpreted function of its arguments.  `like` = the real function:
+    calls are bound to its signature (keyword arguments, defaults applied), so that an argument passed by keyword, dropped
+    or left to its default shows up in the recorded argument list exactly as it would reach the real function."""
+    sig = None
+    if like is not None:
+        import inspect
+        sig = inspect.signature(like)
+
+    def f(*args, **kwargs):
         from ..shims.np_shim import SymArray
+        if sig is not None:
+            ba = sig.bind(*args, **kwargs)
+            ba.apply_defaults()
+            args = tuple(K(repr(v)) if isinstance(v, (int, float)) and not isinstance(v, bool) else v for v in ba.arguments.values())
+        elif kwargs:
+            raise TypeError(f"{name}() stub called with keyword arguments {sorted(kwargs)} but no signature to bind them to")
         arrs = [a for a in args if isinstance(a, SymArray)]
         if arrs:
             n = len(arrs[0])
@@ -187,10 +201,12 @@ def _uf(name, pos=True):
 
 def job_co(job, real_parts=False):
     """oil_compressibility_Standing: Spivey call at/above p_b; defining combination below."""
-    stubs = dict(oil_compressibility_undersat_Spivey=_uf("Spivey"), b_factor_DAK=_uf("Bg"))
+    import bluebonnet.fluids.gas as _rg
+    import bluebonnet.fluids.oil as _ro
+    stubs = dict(oil_compressibility_undersat_Spivey=_uf("Spivey", like=_ro.oil_compressibility_undersat_Spivey), b_factor_DAK=_uf("Bg", like=_rg.b_factor_DAK))
     if not real_parts:
-        stubs.update(solution_gor_Standing=_uf("Rs"), db_o_dgor_Standing=_uf("dBodRs"),
-                     b_o_bubblepoint_Standing=_uf("Bob"))
+        stubs.update(solution_gor_Standing=_uf("Rs", like=_ro.solution_gor_Standing), db_o_dgor_Standing=_uf("dBodRs", like=_ro.db_o_dgor_Standing),
+                     b_o_bubblepoint_Standing=_uf("Bob", like=_ro.b_o_bubblepoint_Standing))
     oil = load_sym("bluebonnet.fluids.oil", **stubs)
     ref = load_sym("bluebonnet.fluids.oil")  # the library's own functions for the reference combination
     job.encoded(oil, "oil_compressibility_Standing")
